@@ -187,6 +187,8 @@ def _run_contract2(contract, mode, size, extra_posts, values, want_paths, exclud
     if _sym_uf_on():
         from . import ufarith
         obls = [ufarith.instantiate(o, getattr(ctx, 'defs', ())) for o in obls]
+        if getattr(contract, 'split_cases', False):
+            obls = [q for o in obls for q in (ufarith.case_split(o) if o.kind in ('loop', 'post') else [o])]
         stats['uf_instances'] = sum(o.meta.get('uf_instances', 0) for o in obls)
     if want_paths:
         stats['_paths'] = paths
